@@ -25,6 +25,8 @@ fn main() {
     let t0 = std::time::Instant::now();
     let res = match prop.as_str() {
         "C05" => props::c05::run(&ctx),
+        "C06" => props::c06::run(&ctx),
+        "C07" => props::c07::run(&ctx),
         other => {
             eprintln!("unknown property {}", other);
             std::process::exit(2);
